@@ -29,6 +29,7 @@ type CV struct {
 	Lat     float64
 	Lon     float64
 	Rev     bool // way children: node order reversed relative to the first version
+	Zone    int  // location of the time values: 0 UTC, 1 a zero-offset fixed zone ("+00:00"), 2 +01:00, 3 -05:30 (same instant)
 }
 
 type Child struct {
@@ -120,12 +121,18 @@ func fid(ch Child) osm.FeatureID {
 // FeatureID of child ci.
 func (c *Case) FeatureID(ci int) osm.FeatureID { return fid(c.Children[ci]) }
 
-func (c *Case) stamp(at int) (ts time.Time, committed *time.Time) {
+var zones = []*time.Location{time.UTC, time.FixedZone("", 0), time.FixedZone("", 3600), time.FixedZone("", -(5*3600 + 1800))}
+
+func (c *Case) stamp(at int, zone ...int) (ts time.Time, committed *time.Time) {
+	loc := time.UTC
+	if len(zone) > 0 {
+		loc = zones[zone[0]%len(zones)]
+	}
 	if c.Regime == Commit {
-		cm := c.Time(at)
+		cm := c.Time(at).In(loc)
 		return cm.Add(-time.Second), &cm // the timestamp differs from the commit time on purpose
 	}
-	return c.Time(at), nil
+	return c.Time(at).In(loc), nil
 }
 
 // DS is the data source built from the case.
@@ -205,7 +212,7 @@ func (c *Case) BuildDS() *DS {
 		}
 		for _, k := range order {
 			v := ch.Versions[k]
-			ts, cm := c.stamp(v.At)
+			ts, cm := c.stamp(v.At, v.Zone)
 			switch ch.Kind {
 			case 0:
 				d.Nodes[osm.NodeID(ch.ID)] = append(d.Nodes[osm.NodeID(ch.ID)], &osm.Node{ID: osm.NodeID(ch.ID), Version: v.Ver, Visible: v.Visible, Timestamp: ts, Committed: cm, ChangesetID: osm.ChangesetID(v.CS), Lat: v.Lat, Lon: v.Lon})
@@ -323,7 +330,7 @@ func genCommit(t *rapid.T, c *Case, o Opts) {
 			if !o.NoErrors && v > 0 && rapid.IntRange(0, 7).Draw(t, "del") == 0 {
 				vis = false
 			}
-			cv := CV{Ver: ver, At: at, Visible: vis, CS: int64(rapid.IntRange(1, 6).Draw(t, "cs")), Rev: rapid.Bool().Draw(t, "rev")}
+			cv := CV{Ver: ver, At: at, Visible: vis, CS: int64(rapid.IntRange(1, 6).Draw(t, "cs")), Rev: rapid.Bool().Draw(t, "rev"), Zone: rapid.SampledFrom([]int{0, 0, 1, 2, 3}).Draw(t, "zone")}
 			if ch.Kind == 0 {
 				cv.Lat, cv.Lon = coord(t, "lat"), coord(t, "lon")
 			}
@@ -441,7 +448,7 @@ func genPre(t *rapid.T, c *Case, o Opts) {
 		ver := 0
 		for _, e := range evs {
 			ver += rapid.SampledFrom([]int{1, 1, 2}).Draw(t, "dv")
-			cv := CV{Ver: ver, At: e.ts, Visible: true, CS: e.cs, Rev: rapid.Bool().Draw(t, "rev")}
+			cv := CV{Ver: ver, At: e.ts, Visible: true, CS: e.cs, Rev: rapid.Bool().Draw(t, "rev"), Zone: rapid.SampledFrom([]int{0, 0, 1, 2, 3}).Draw(t, "zone")}
 			if ch.Kind == 0 {
 				cv.Lat, cv.Lon = coord(t, "lat"), coord(t, "lon")
 			}
